@@ -6,7 +6,12 @@ package main
 //   create (Submit = originated here / Receive = from another node, optional BinarySprayBlock with
 //   k copies, optional PreviousNodeBlock), peer up (with link failing or not) / down, link starts /
 //   stops failing, retry tick, metadata GC
-// with scripted mock convergence senders.  After every event the harness records, per bundle, the
+// with scripted mock convergence senders.  A create event for a bundle that was created before is
+// the same bundle received again (from a neighbour named by its PreviousNodeBlock): a duplicate
+// while the store still knows the bundle (Core.receive drops it), or the bundle coming back after it
+// was delivered to its destination and left the store - then NotifyNewBundle initialises the
+// metadata afresh (full budget for a bundle of ours, the previous node in the sent list: fix
+// 772c5cf) and a new life of the bundle begins, whose transmissions the budget checker judges.  After every event the harness records, per bundle, the
 // Send calls the Core made (sender, peer node, outcome, BinarySprayBlock value parsed from the bytes
 // that were sent), the spray metadata (accessor hook) and whether the store still knows the bundle.
 //
@@ -253,6 +258,7 @@ func sprayRun(binary bool, mult uint64, syncMode bool, nb int, evs []sprayEv) []
 	ids := make([]bpv7.BundleID, nb)
 	idStr := map[string]int{}
 	created := make([]bool, nb)
+	tsOf := make([]uint64, nb)
 	if sprayTS == 0 {
 		sprayTS = uint64(bpv7.DtnTimeNow()) - 3600*1000
 	}
@@ -275,7 +281,11 @@ func sprayRun(binary bool, mult uint64, syncMode bool, nb int, evs []sprayEv) []
 		}
 		switch e.kind {
 		case seCreate:
-			sprayTS += 7
+			if !created[e.b] {
+				sprayTS += 7
+				tsOf[e.b] = sprayTS
+			}
+			again := created[e.b] // the same bundle (same ID) once more: always through the receive path
 			src := "dtn://n0/app"
 			if !e.origin {
 				src = "dtn://s9/app"
@@ -287,13 +297,16 @@ func sprayRun(binary bool, mult uint64, syncMode bool, nb int, evs []sprayEv) []
 			if e.prev >= 0 {
 				blocks = append(blocks, bpv7.NewCanonicalBlock(0, 0, bpv7.NewPreviousNodeBlock(MustEID(sprayNodeEID(e.prev)))))
 			}
-			b := MkBundle(BOpt{Src: src, Dst: fmt.Sprintf("dtn://p%d/app", e.dst), TS: sprayTS, Life: 6 * 3600 * 1000,
+			b := MkBundle(BOpt{Src: src, Dst: fmt.Sprintf("dtn://p%d/app", e.dst), TS: tsOf[e.b], Life: 6 * 3600 * 1000,
 				Payload: []byte(fmt.Sprintf("spray-%d", e.b)), Blocks: blocks, CRC: bpv7.CRC32})
+			if again && b.ID() != ids[e.b] {
+				panic("spray: a bundle received again must be the bundle created before")
+			}
 			ids[e.b] = b.ID()
 			sprayCreatedIDs = append(sprayCreatedIDs, b.ID())
 			idStr[b.ID().String()] = e.b
 			created[e.b] = true
-			if e.origin && !e.viaRx {
+			if e.origin && !e.viaRx && !again {
 				n.Submit(b)
 			} else {
 				from := "dtn://s8/"
@@ -442,11 +455,26 @@ func sprayRun(binary bool, mult uint64, syncMode bool, nb int, evs []sprayEv) []
 type sprayGenState struct {
 	up      map[int]int // cla -> node
 	created []bool
+	first   []sprayEv // the create event of every bundle
 	nb      int
 }
 
+// sprayAgain: the bundle of create event [first] is received again - from node prev (-1: the bundle
+// names no previous node), announcing blk copies under binary spray (-1: no BinarySprayBlock)
+func sprayAgain(first sprayEv, blk, prev int) sprayEv {
+	e := first
+	e.gc = 0
+	e.viaRx = e.origin
+	e.blk = blk
+	e.prev = prev
+	if e.prev == e.dst { // a bundle is not received from its own destination
+		e.prev = -1
+	}
+	return e
+}
+
 func sprayRandomHistory(r *Rng, binary bool, nb, length, maxCla, bias int) []sprayEv {
-	st := sprayGenState{up: map[int]int{}, created: make([]bool, nb), nb: nb}
+	st := sprayGenState{up: map[int]int{}, created: make([]bool, nb), first: make([]sprayEv, nb), nb: nb}
 	var evs []sprayEv
 	dsts := make([]int, nb)
 	for i := range dsts {
@@ -457,7 +485,7 @@ func sprayRandomHistory(r *Rng, binary bool, nb, length, maxCla, bias int) []spr
 		failBias = bias
 	}
 	for len(evs) < length {
-		k := r.Intn(100)
+		k := r.Intn(107)
 		var nextB = -1
 		for i, c := range st.created {
 			if !c {
@@ -482,7 +510,29 @@ func sprayRandomHistory(r *Rng, binary bool, nb, length, maxCla, bias int) []spr
 				}
 			}
 			st.created[nextB] = true
+			st.first[nextB] = e
 			evs = append(evs, e)
+		case k >= 100:
+			// a bundle created before is received again: dropped as a duplicate while the store knows it,
+			// a new life (metadata initialised afresh) when it has been delivered in the meantime
+			var have []int
+			for i, c := range st.created {
+				if c {
+					have = append(have, i)
+				}
+			}
+			if len(have) == 0 {
+				continue
+			}
+			f := st.first[have[r.Intn(len(have))]]
+			blk, prev := -1, -1
+			if binary && r.Intn(3) != 0 {
+				blk = r.Intn(10)
+			}
+			if r.Intn(4) != 0 {
+				prev = 1 + r.Intn(6)
+			}
+			evs = append(evs, sprayAgain(f, blk, prev))
 		case k < 50:
 			// peer up
 			var down []int
@@ -541,7 +591,9 @@ func sprayRandomHistory(r *Rng, binary bool, nb, length, maxCla, bias int) []spr
 
 // bounded-exhaustive: all histories of length depth over a small alphabet
 // (one bundle to destination node 1; senders c0->p1 (the destination), c1->p2, c2->p3).
-func sprayEnumerate(depth int, binary bool, emit func([]sprayEv)) {
+// again: the alphabet also has "the bundle is received again from node 3" (a duplicate, or the bundle
+// coming back after the delivery to node 1 took it out of the store).
+func sprayEnumerate(depth int, binary bool, again bool, emit func([]sprayEv)) {
 	type abs struct {
 		up      [3]bool
 		created bool
@@ -566,6 +618,9 @@ func sprayEnumerate(depth int, binary bool, emit func([]sprayEv)) {
 		}
 		if st.created {
 			alpha = append(alpha, sprayEv{kind: seTick})
+			if again {
+				alpha = append(alpha, sprayEv{kind: seCreate, b: 0, origin: true, viaRx: true, dst: 1, blk: -1, prev: 3})
+			}
 		}
 		for _, e := range alpha {
 			st2 := st
@@ -679,7 +734,7 @@ func genC18spray(o *Out, r *Rng, thorough bool) {
 			if depth == 0 {
 				continue
 			}
-			sprayEnumerate(depth, bin, func(evs []sprayEv) {
+			sprayEnumerate(depth, bin, thorough, func(evs []sprayEv) {
 				o.Case("hist", sprayRun(bin, mult, false, 1, evs)...)
 			})
 		}
@@ -739,6 +794,11 @@ func sprayCorpus() []sprayHist {
 	recv := func(dst, blk, prev int) sprayEv {
 		return sprayEv{kind: seCreate, b: 0, origin: false, dst: dst, blk: blk, prev: prev}
 	}
+	// a bundle of ours received from node prev (first event of bundle 0 or the bundle received again)
+	own := func(dst, blk, prev int) sprayEv {
+		return sprayEv{kind: seCreate, b: 0, origin: true, viaRx: true, dst: dst, blk: blk, prev: prev}
+	}
+	gc := sprayEv{kind: seGC}
 	var hs []sprayHist
 	// (a) flaky destination: L = 2, four failed direct deliveries, then five relays appear
 	hs = append(hs, sprayHist{false, 2, false, 1, []sprayEv{up(0, 1, true), submit(1), tick, tick, tick, down(0),
@@ -763,6 +823,35 @@ func sprayCorpus() []sprayHist {
 			}
 		}
 	}
+	// a bundle of ours comes back from a neighbour (fix 772c5cf: the previous node is recorded, without a copy)
+	for L := uint64(1); L <= 5; L++ {
+		for _, bin := range []bool{false, true} {
+			// ... never seen before on this node: node 2 excluded, nodes 3, 4, 5 within the budget; the destination fails, then takes it
+			hs = append(hs, sprayHist{bin, L, false, 1, []sprayEv{up(0, 2, false), up(1, 3, false), own(1, -1, 2), up(2, 4, false), up(3, 5, false),
+				tick, up(4, 1, true), tick, setf(4, false), tick, gc}})
+			// ... submitted, sprayed, delivered (leaves the store), with / without a collection in between; comes back from
+			// node 4 while nodes 2 and 3 are still there; then nodes 4 (excluded), 5, 6 appear
+			for _, withGC := range []bool{false, true} {
+				evs := []sprayEv{submit(1), up(1, 2, false), up(2, 3, false), up(0, 1, false), down(0)}
+				if withGC {
+					evs = append(evs, gc)
+				}
+				evs = append(evs, own(1, -1, 4), up(3, 4, false), up(4, 5, false), up(5, 6, false), tick, gc, tick)
+				hs = append(hs, sprayHist{bin, L, false, 1, evs})
+			}
+			// ... received again while it still is in the store: a duplicate, nothing changes (node 4 is served later)
+			hs = append(hs, sprayHist{bin, L, false, 1, []sprayEv{submit(7), up(0, 2, false), own(7, -1, 4), up(1, 4, false), up(2, 5, false), tick,
+				own(7, -1, -1), up(3, 6, false)}})
+		}
+	}
+	// ... into failing links (several failure reports at once), the failed ones are offered again; no PreviousNodeBlock the second time
+	hs = append(hs, sprayHist{false, 5, true, 1, []sprayEv{submit(1), up(0, 1, false), down(0), up(1, 2, true), up(2, 3, true), own(1, -1, 4), tick,
+		setf(1, false), tick, up(3, 4, false), up(4, 5, false), up(0, 1, false), down(0), own(1, -1, -1), up(5, 6, false), tick}})
+	// ... binary: comes back announcing 3 copies (from node 2, which got 4 of 8) / without a BinarySprayBlock
+	hs = append(hs, sprayHist{true, 8, false, 1, []sprayEv{submit(1), up(1, 2, false), up(0, 1, false), down(0), own(1, 3, 2), up(2, 3, false),
+		up(3, 4, true), tick, setf(3, false), tick, up(4, 5, false)}})
+	hs = append(hs, sprayHist{true, 6, false, 1, []sprayEv{submit(1), up(1, 2, false), up(0, 1, false), down(0), gc, own(1, -1, 2), up(2, 3, false),
+		up(3, 4, false), up(4, 5, false), up(5, 6, false)}})
 	// received bundles: vanilla keeps one copy; binary takes over the announced copies
 	for _, k := range []int{0, 1, 2, 5} {
 		hs = append(hs, sprayHist{true, 4, false, 1, []sprayEv{up(0, 2, false), up(1, 3, true), recv(1, k, 2), tick, up(2, 4, false), tick, up(3, 1, true), tick, setf(3, false), tick}})
